@@ -259,6 +259,14 @@ def prefixTableOk : Bool :=
   && Ref.C14.prefixSymbols.all (fun (k, _) => (findN k prefixesC).isSome)
   && Ref.C14.prefixWords.all (fun (w, _) => prefixWordsC.any fun (_, w') => Nat.beq w w')
 
+/-- the prefix dict the look-up walks: every value is the SI power of ten of its symbol, up to the
+    rounding of a double -/
+def prefixDictOk : Bool :=
+  prefixesT.toList.all fun (k, v) =>
+    match findN k Ref.C14.prefixSymbols with
+    | some e => decide (absR (ratOfBits v - Ref.C14.pow10 e) ≤ Ref.C14.pow10 e / (2 ^ 50 : Nat))
+    | none => false
+
 /-- the readable reference tables are the code tables -/
 def refCodesOk : Bool :=
   (Ref.C14.prefixSymbolsS.map fun (s, k) => (Name.ofString s, k)) == Ref.C14.prefixSymbols
